@@ -1,129 +1,42 @@
 """C01 -- Hypergraph answers every query as the abstract hypergraph of its history.
 
-Model-based history testing.  A case is a JSON document: universe, constructor
-arguments and a list of *abstract* operations (selector integers resolved
-against the reference model while the history runs, which makes argument
-generation model-aware and still lets the whole history shrink as one value).
-After every step the complete public observation of the real object must equal
-the observation of the reference model (RefHypergraph: a set of nodes plus a map
+Model-based history testing (generic machine in hgxverif/history.py).  After
+every step the complete public observation of the real object must equal the
+observation of the reference model (RefHypergraph: a set of nodes plus a map
 node set -> [weight, metadata]).
 """
 
-import copy
 from collections import Counter
 
-from hypothesis import strategies as st
-
-from .. import strategies as S
-from ..common import Alt, alt_equal, cedge, dc, dedupe, definite, diff_obs, permuted
-from ..engine import Clause, Violation, require
+from .. import history as H
+from ..common import cedge, dc, dedupe, permuted
+from ..engine import Clause, Violation
 
 ASSUMPTIONS = [
-    "oracle = RefHypergraph (plain dict/set reference model in hgxverif/props/c01.py)",
+    "oracle = RefHypergraph (plain dict/set reference model in hgxverif/props/c01.py + history.RefBase)",
     "unspecified corners are value sets (metadata of a re-inserted hyperedge, of a node "
     "re-added with metadata, of a merged hyperedge, hypergraph metadata after clear) or "
     "excluded and counted (keep_edges=True removal of a node with a singleton hyperedge, "
-    "weights passed to add_edges of an unweighted hypergraph)",
+    "weights passed to add_edges of an unweighted hypergraph, failing element inside a "
+    "remove_edges/remove_nodes batch other than the first)",
     "labels of one universe are mutually comparable; hyperedges list distinct nodes",
 ]
 
-SIZES = list(range(0, 7))  # hyperedges have 1..5 nodes: 0 and 6 are absent sizes
-
+SIZES = H.SIZES
 
 # --------------------------------------------------------------------------
 # reference model
 
 
-class RefHypergraph:
-    def __init__(self, weighted):
-        self.weighted = weighted
-        self.nodes = {}        # label -> metadata (dict or Alt)
-        self.edges = {}        # frozenset -> [weight, metadata (dict or Alt)]
-        self.hg_required = {}  # user-set hypergraph metadata fields that must be visible
+class RefHypergraph(H.RefBase):
+    """key = frozenset of nodes"""
 
-    # ---- mutators: return True (accepted) / False (rejected, model untouched)
-    def add_node(self, n, meta=None):
-        if n not in self.nodes:
-            self.nodes[n] = {} if meta is None else meta
-        elif meta is not None and meta != {}:
-            # docstring: "already in the hypergraph, nothing happens"; the code fills in
-            # metadata when the stored one is empty.  Both accepted.
-            self.nodes[n] = Alt([self.nodes[n], meta])
-        return True
+    def nodes_of(self, key):
+        return key
 
-    def add_edge(self, nodes, w=None, meta=None):
-        if not self.weighted and w is not None and w != 1:
-            return False
-        key = frozenset(nodes)
-        if w is None:
-            w = 1
-        if key not in self.edges:
-            self.edges[key] = [w if self.weighted else 1, {} if meta is None else meta]
-        else:
-            if self.weighted:
-                self.edges[key][0] += w
-            old = self.edges[key][1]
-            self.edges[key][1] = Alt([old, {} if meta is None else meta])
-        for n in nodes:
-            self.add_node(n)
-        return True
-
-    def remove_edge(self, nodes):
-        key = frozenset(nodes)
-        if key not in self.edges:
-            return False
-        del self.edges[key]
-        return True
-
-    def remove_node(self, n, keep_edges=False):
-        if n not in self.nodes:
-            return False
-        inc = [e for e in self.edges if n in e]
-        if not keep_edges:
-            for e in inc:
-                del self.edges[e]
-        else:
-            moved = [(e, self.edges.pop(e)) for e in inc]
-            for e, (w, meta) in moved:
-                new = e - {n}
-                if new in self.edges:
-                    if self.weighted:
-                        self.edges[new][0] += w
-                    self.edges[new][1] = Alt([self.edges[new][1], meta])
-                else:
-                    self.edges[new] = [w, meta]
-        del self.nodes[n]
-        return True
-
-    def would_empty(self, ns):
-        """keep_edges=True removal of ns (in order) would produce an empty hyperedge."""
-        es = set(self.edges)
-        for n in ns:
-            es2 = set()
-            for e in es:
-                if n in e:
-                    if len(e) == 1:
-                        return True
-                    es2.add(e - {n})
-                else:
-                    es2.add(e)
-            es = es2
-        return False
-
-    def set_weight(self, nodes, w):
-        if not self.weighted and w != 1:
-            return False
-        key = frozenset(nodes)
-        if key not in self.edges:
-            return False
-        self.edges[key][0] = w
-        return True
-
-    def clear(self):
-        self.nodes = {}
-        self.edges = {}
-        self.hg_required = {}  # after clear() earlier fields are unconstrained
-        return True
+    def shrink(self, key, n):
+        new = key - {n}
+        return new if new else None
 
     # ---- queries (same signatures as the library)
     def is_weighted(self):
@@ -329,551 +242,92 @@ def _setof(x):
     return s
 
 
-def collapse(model, obs):
-    """Resolve the model's value sets to what was observed (already checked to match)."""
-    for n, m in list(model.nodes.items()):
-        if isinstance(m, Alt):
-            model.nodes[n] = dc(obs["node_meta"][n])
-    for e, rec in model.edges.items():
-        if isinstance(rec[1], Alt):
-            rec[1] = dc(obs["edge_meta"][tuple(sorted(e))])
+class HypergraphAdapter(H.Adapter):
+    name = "Hypergraph"
 
+    def fresh_record(self, spec, U):
+        return dedupe([U[i % len(U)] for i in spec["ns"]])
 
-def hg_meta_of(h):
-    return dc(h.get_hypergraph_metadata())
+    def record_of_key(self, key, perm):
+        return permuted(sorted(key), perm)
 
+    def key_of(self, rec):
+        return frozenset(rec)
 
-# --------------------------------------------------------------------------
-# abstract op -> concrete op
+    def probe_of_key(self, key):
+        return tuple(sorted(key))
 
+    def batch_dup_token(self, rec):
+        return tuple(rec)
 
-def _edge_from(spec, model, U):
-    """spec = {"mode","ns","pick","perm"} -> list of labels (in call order)."""
-    if spec["mode"] == "existing" and model.edges:
-        es = sorted(model.edges, key=lambda e: (len(e), sorted(e)))
-        e = es[spec["pick"] % len(es)]
-        return permuted(sorted(e), spec["perm"])
-    return dedupe([U[i % len(U)] for i in spec["ns"]])
+    def sort_key(self, key):
+        return (len(key), sorted(key))
 
+    def new_model(self, weighted):
+        return RefHypergraph(weighted)
 
-def _node_from(spec, model, U):
-    if spec["mode"] == "existing" and model.nodes:
-        ns = sorted(model.nodes)
-        return ns[spec["pick"] % len(ns)]
-    return U[spec["i"] % len(U)]
+    def construct(self, weighted, recs, ws, metas, node_meta, hg_meta):
+        from hypergraphx import Hypergraph
+        kw = {"weighted": weighted}
+        if hg_meta is not None:
+            kw["hypergraph_metadata"] = hg_meta
+        if node_meta is not None:
+            kw["node_metadata"] = node_meta
+        if recs:
+            kw["edge_list"] = [tuple(r) for r in recs]
+            if ws is not None:
+                kw["weights"] = ws
+            if metas is not None:
+                kw["edge_metadata"] = metas
+        return Hypergraph(**kw)
 
+    def r_add_edge(self, h, e, w, meta):
+        kw = {}
+        if w is not None:
+            kw["weight"] = w
+        if meta is not None:
+            kw["metadata"] = meta
+        h.add_edge(tuple(e), **kw)
 
-def _present_field(meta, aop):
-    """Mostly aim remove_attr at a field that exists (otherwise it is a rejection)."""
-    fp = aop.get("fpick", 0)
-    if isinstance(meta, dict) and meta and fp % 4 != 0:
-        fs = sorted(meta)
-        return fs[fp % len(fs)]
-    return aop["field"]
-
-
-def resolve(aop, model, U):
-    """Concrete operation (plain labels), or None when excluded by construction."""
-    k = aop["op"]
-    c = {"op": k}
-    if k == "add_node":
-        c["n"] = _node_from(aop["node"], model, U)
-        c["meta"] = aop["meta"]
-    elif k == "add_nodes":
-        c["ns"] = dedupe([U[i % len(U)] for i in aop["ns"]])
-        c["metas"] = aop["metas"][: len(c["ns"])] if aop["metas"] is not None else None
-        if c["metas"] is not None and len(c["metas"]) < len(c["ns"]):
-            c["ns"] = c["ns"][: len(c["metas"])]
-    elif k == "add_edge":
-        c["e"] = _edge_from(aop["edge"], model, U)
-        c["w"] = aop["w"]
-        c["meta"] = aop["meta"]
-    elif k == "add_edges":
-        c["es"] = [_edge_from(s, model, U) for s in aop["edges"]]
-        c["ws"] = aop["ws"][: len(c["es"])] if aop["ws"] is not None else None
-        if aop.get("short_weights") and c["ws"]:
-            c["ws"] = c["ws"][:-1]
-        c["metas"] = None
-        if aop["metas"] is not None:
-            c["metas"] = (aop["metas"] + [{} for _ in c["es"]])[: len(c["es"])]
-    elif k in ("remove_edge", "set_weight", "set_edge_metadata", "set_attr_edge",
-               "remove_attr_edge"):
-        c["e"] = _edge_from(aop["edge"], model, U)
-        for f in ("w", "meta", "field", "value"):
-            if f in aop:
-                c[f] = aop[f]
-        if k == "remove_attr_edge" and frozenset(c["e"]) in model.edges:
-            c["field"] = _present_field(model.edges[frozenset(c["e"])][1], aop)
-    elif k == "remove_edges":
-        es = [_edge_from(s, model, U) for s in aop["edges"]]
-        seen, out = set(), []
-        for i, e in enumerate(es):
-            fs = frozenset(e)
-            if fs in seen:
-                continue
-            if fs not in model.edges and i > 0:
-                continue  # a failing element only in first position (DESIGN C01: batches)
-            seen.add(fs)
-            out.append(e)
-            if fs not in model.edges:
-                break
-        c["es"] = out
-    elif k == "remove_node":
-        c["n"] = _node_from(aop["node"], model, U)
-        c["keep"] = aop["keep"]
-        if c["keep"] and c["n"] in model.nodes and model.would_empty([c["n"]]):
-            return None
-    elif k == "remove_nodes":
-        ns = dedupe([_node_from(s, model, U) for s in aop["nodes"]])
-        out = []
-        for i, n in enumerate(ns):
-            if n not in model.nodes and i > 0:
-                continue
-            out.append(n)
-            if n not in model.nodes:
-                break
-        c["ns"] = out
-        c["keep"] = aop["keep"]
-        if c["keep"] and all(n in model.nodes for n in out) and model.would_empty(out):
-            return None
-    elif k in ("set_node_metadata", "set_attr_node", "remove_attr_node"):
-        c["n"] = _node_from(aop["node"], model, U)
-        for f in ("meta", "field", "value"):
-            if f in aop:
-                c[f] = aop[f]
-        if k == "remove_attr_node" and c["n"] in model.nodes:
-            c["field"] = _present_field(model.nodes[c["n"]], aop)
-    elif k == "set_attr_hg":
-        c["field"], c["value"] = aop["field"], aop["value"]
-    elif k in ("clear", "copy"):
-        pass
-    else:
-        raise ValueError(k)
-    return c
-
-
-def apply_model(m, c):
-    """Apply a concrete op to the model.  True = accepted, False = rejected."""
-    k = c["op"]
-    if k == "add_node":
-        return m.add_node(c["n"], dc(c["meta"]))
-    if k == "add_nodes":
-        for i, n in enumerate(c["ns"]):
-            m.add_node(n, dc(c["metas"][i]) if c["metas"] is not None else None)
-        return True
-    if k == "add_edge":
-        return m.add_edge(c["e"], c["w"], dc(c["meta"]))
-    if k == "add_edges":
-        ws = c["ws"]
+    def r_add_edges(self, h, es, ws, metas):
+        kw = {}
         if ws is not None:
-            if len(set(map(tuple, c["es"]))) != len(c["es"]):
-                return False
-            if len(ws) != len(c["es"]):
-                return False
-        for i, e in enumerate(c["es"]):
-            w = ws[i] if ws is not None else None
-            if not m.add_edge(e, w, dc(c["metas"][i]) if c["metas"] is not None else None):
-                raise AssertionError("generator produced a partially failing batch")
-        return True
-    if k == "remove_edge":
-        return m.remove_edge(c["e"])
-    if k == "remove_edges":
-        for e in c["es"]:
-            if not m.remove_edge(e):
-                return False  # only possible at position 0
-        return True
-    if k == "remove_node":
-        return m.remove_node(c["n"], c["keep"])
-    if k == "remove_nodes":
-        for n in c["ns"]:
-            if not m.remove_node(n, c["keep"]):
-                return False
-        return True
-    if k == "set_weight":
-        return m.set_weight(c["e"], c["w"])
-    if k == "set_node_metadata":
-        if c["n"] not in m.nodes:
-            return False
-        m.nodes[c["n"]] = dc(c["meta"])
-        return True
-    if k == "set_edge_metadata":
-        key = frozenset(c["e"])
-        if key not in m.edges:
-            return False
-        m.edges[key][1] = dc(c["meta"])
-        return True
-    if k == "set_attr_node":
-        if c["n"] not in m.nodes:
-            return False
-        m.nodes[c["n"]][c["field"]] = dc(c["value"])
-        return True
-    if k == "remove_attr_node":
-        if c["n"] not in m.nodes or c["field"] not in m.nodes[c["n"]]:
-            return False
-        del m.nodes[c["n"]][c["field"]]
-        return True
-    if k == "set_attr_edge":
-        key = frozenset(c["e"])
-        if key not in m.edges:
-            return False
-        m.edges[key][1][c["field"]] = dc(c["value"])
-        return True
-    if k == "remove_attr_edge":
-        key = frozenset(c["e"])
-        if key not in m.edges or c["field"] not in m.edges[key][1]:
-            return False
-        del m.edges[key][1][c["field"]]
-        return True
-    if k == "set_attr_hg":
-        m.hg_required[c["field"]] = dc(c["value"])
-        return True
-    if k == "clear":
-        return m.clear()
-    raise ValueError(k)
+            kw["weights"] = ws
+        if metas is not None:
+            kw["metadata"] = metas
+        h.add_edges([tuple(e) for e in es], **kw)
+
+    def r_remove_edge(self, h, e):
+        h.remove_edge(tuple(e))
+
+    def r_remove_edges(self, h, es):
+        h.remove_edges([tuple(e) for e in es])
+
+    def r_set_weight(self, h, e, w):
+        h.set_weight(tuple(e), w)
+
+    def r_set_edge_metadata(self, h, e, meta):
+        h.set_edge_metadata(tuple(e), meta)
+
+    def r_set_attr_edge(self, h, e, f, v):
+        h.set_attr_to_edge_metadata(tuple(e), f, v)
+
+    def r_remove_attr_edge(self, h, e, f):
+        h.remove_attr_from_edge_metadata(tuple(e), f)
+
+    def observe(self, h, U, probes, real):
+        return observe(h, U, probes, real)
 
 
-def apply_real(h, c):
-    k = c["op"]
-    if k == "add_node":
-        if c["meta"] is None:
-            h.add_node(c["n"])
-        else:
-            h.add_node(c["n"], metadata=dc(c["meta"]))
-    elif k == "add_nodes":
-        if c["metas"] is None:
-            h.add_nodes(list(c["ns"]))
-        else:
-            h.add_nodes(list(c["ns"]),
-                        metadata={n: dc(c["metas"][i]) for i, n in enumerate(c["ns"])})
-    elif k == "add_edge":
-        kw = {}
-        if c["w"] is not None:
-            kw["weight"] = c["w"]
-        if c["meta"] is not None:
-            kw["metadata"] = dc(c["meta"])
-        h.add_edge(tuple(c["e"]), **kw)
-    elif k == "add_edges":
-        kw = {}
-        if c["ws"] is not None:
-            kw["weights"] = list(c["ws"])
-        if c["metas"] is not None:
-            kw["metadata"] = [dc(m) for m in c["metas"]]  # no aliasing between entries
-        h.add_edges([tuple(e) for e in c["es"]], **kw)
-    elif k == "remove_edge":
-        h.remove_edge(tuple(c["e"]))
-    elif k == "remove_edges":
-        h.remove_edges([tuple(e) for e in c["es"]])
-    elif k == "remove_node":
-        if c["keep"]:
-            h.remove_node(c["n"], keep_edges=True)
-        else:
-            h.remove_node(c["n"])
-    elif k == "remove_nodes":
-        h.remove_nodes(list(c["ns"]), keep_edges=c["keep"])
-    elif k == "set_weight":
-        h.set_weight(tuple(c["e"]), c["w"])
-    elif k == "set_node_metadata":
-        h.set_node_metadata(c["n"], dc(c["meta"]))
-    elif k == "set_edge_metadata":
-        h.set_edge_metadata(tuple(c["e"]), dc(c["meta"]))
-    elif k == "set_attr_node":
-        h.set_attr_to_node_metadata(c["n"], c["field"], dc(c["value"]))
-    elif k == "remove_attr_node":
-        h.remove_attr_from_node_metadata(c["n"], c["field"])
-    elif k == "set_attr_edge":
-        h.set_attr_to_edge_metadata(tuple(c["e"]), c["field"], dc(c["value"]))
-    elif k == "remove_attr_edge":
-        h.remove_attr_from_edge_metadata(tuple(c["e"]), c["field"])
-    elif k == "set_attr_hg":
-        h.set_attr_to_hypergraph_metadata(c["field"], dc(c["value"]))
-    elif k == "clear":
-        h.clear()
-    else:
-        raise ValueError(k)
-
-
-# --------------------------------------------------------------------------
-# the check
-
-
-def build_initial(case, U):
-    from hypergraphx import Hypergraph
-
-    init = case["init"]
-    weighted = case["weighted"]
-    model = RefHypergraph(weighted)
-    kw = {"weighted": weighted}
-    if init["hg_meta"] is not None:
-        kw["hypergraph_metadata"] = dc(init["hg_meta"])
-        model.hg_required = dc(init["hg_meta"])
-    if init["node_meta"] is not None:
-        nm = {}
-        for i, meta in init["node_meta"]:
-            nm[U[i % len(U)]] = meta  # later entries win, as in a dict literal
-        kw["node_metadata"] = dc(nm)
-        for n, meta in nm.items():
-            model.add_node(n, dc(meta))
-            # add_node with metadata on a *new* node is definite
-    es = []
-    seen = set()
-    for ns in init["edges"]:
-        e = dedupe([U[i % len(U)] for i in ns])
-        if frozenset(e) not in seen:
-            seen.add(frozenset(e))
-            es.append(e)
-    if es:
-        kw["edge_list"] = [tuple(e) for e in es]
-        ws = None
-        if weighted and init["weights"] is not None:
-            ws = (init["weights"] * len(es))[: len(es)]
-            kw["weights"] = list(ws)
-        metas = None
-        if init["edge_meta"] is not None:
-            metas = (init["edge_meta"] + [{} for _ in es])[: len(es)]
-            kw["edge_metadata"] = [dc(m) for m in metas]
-        for i, e in enumerate(es):
-            model.add_edge(e, ws[i] if ws is not None else None,
-                           dc(metas[i]) if metas is not None else None)
-    h = Hypergraph(**kw)
-    return h, model, kw
-
-
-def check_against_model(h, model, U, probes, step_desc, prev_obs=None):
-    obs = observe(h, U, probes, real=True)
-    exp = observe(model, U, probes, real=False)
-    d = diff_obs(exp, obs, ALT_KEYS)
-    if d is not None:
-        raise Violation("after %s: %s" % (step_desc, d))
-    hm = hg_meta_of(h)
-    for f, v in model.hg_required.items():
-        if not (isinstance(hm, dict) and f in hm and hm[f] == v):
-            raise Violation("after %s: hypergraph metadata field %r expected %r, metadata is %r"
-                            % (step_desc, f, v, hm))
-    collapse(model, obs)
-    obs["__hg_meta__"] = hm
-    return obs
+ADAPTER = HypergraphAdapter()
 
 
 def check_history(case, ctx):
-    U = case["universe"]["labels"]
-    h, model, kw = build_initial(case, U)
-    probes = []
-
-    def note_probe(e):
-        p = tuple(sorted(e))
-        if p not in probes and len(probes) < 40:
-            probes.append(p)
-
-    trace = [{"init": {k: v for k, v in kw.items()}}]
-    ctx.trace = trace
-    frozen = []  # (object, model, obs) of originals left behind by copy()
-    cur_obs = check_against_model(h, model, U, probes, "construction")
-    seen_removal = False
-    inserted_after = False
-    reinsertion = False
-    n_reject = 0
-    for step, aop in enumerate(case["ops"]):
-        c = resolve(aop, model, U)
-        if c is None:
-            ctx.exclude("keep_edges=True removal that would leave an empty hyperedge")
-            continue
-        trace.append(c)
-        desc = "step %d %r" % (step, c)
-        n_probes = len(probes)
-        if "e" in c:
-            note_probe(c["e"])
-        for e in c.get("es", []):
-            note_probe(e)
-        if len(probes) != n_probes:  # the observation now asks about more hyperedges
-            cur_obs = observe(h, U, probes, real=True)
-            cur_obs["__hg_meta__"] = hg_meta_of(h)
-            for i, (h0, m0, o0) in enumerate(frozen):
-                o0 = observe(h0, U, probes, real=True)
-                o0["__hg_meta__"] = hg_meta_of(h0)
-                frozen[i] = (h0, m0, o0)
-        if c["op"] == "copy":
-            ctx.label("op:copy")
-            h2 = h.copy()
-            frozen.append((h, dc(model), cur_obs))
-            h = h2
-            cur_obs = check_against_model(h, model, U, probes, desc)
-            continue
-        # classification (before the model changes)
-        if c["op"] in ("add_edge",) and frozenset(c["e"]) in model.edges:
-            reinsertion = True
-            ctx.label("reinsert_existing")
-            if tuple(c["e"]) != tuple(sorted(c["e"])):
-                ctx.label("reinsert_permuted")
-        if c["op"] == "add_edges" and any(frozenset(e) in model.edges for e in c["es"]):
-            reinsertion = True
-            ctx.label("reinsert_existing_batch")
-        m2 = dc(model)
-        accepted = apply_model(m2, c)
-        raised = None
-        try:
-            apply_real(h, c)
-        except Violation:
-            raise
-        except Exception as e:  # the library rejected (or crashed on) the operation
-            raised = e
-        ctx.label("op:" + c["op"])
-        if accepted:
-            if raised is not None:
-                import traceback
-                tb = traceback.extract_tb(raised.__traceback__)[-1]
-                raise Violation(
-                    "%s is a valid operation but raised %s: %s (%s:%d)"
-                    % (desc, type(raised).__name__, str(raised)[:200],
-                       tb.filename.split("/")[-1], tb.lineno),
-                    key="valid-op-raised:%s" % c["op"])
-            model = m2
-            if c["op"] in ("remove_edge", "remove_edges", "remove_node", "remove_nodes"):
-                seen_removal = True
-                if c.get("keep"):
-                    reinsertion = True  # a keep_edges shrink re-inserts hyperedges
-                    ctx.label("keep_edges_shrink")
-            elif c["op"] in ("add_edge", "add_edges") and seen_removal:
-                inserted_after = True
-            cur_obs = check_against_model(h, model, U, probes, desc)
-        else:
-            n_reject += 1
-            ctx.label("rejected:" + c["op"])
-            obs = observe(h, U, probes, real=True)
-            obs["__hg_meta__"] = hg_meta_of(h)
-            d = diff_obs(cur_obs, obs)
-            if d is not None:
-                raise Violation(
-                    "%s must be rejected (%s) but the observable state changed: %s"
-                    % (desc, "raised %s" % type(raised).__name__ if raised else "no exception", d),
-                    key="rejected-op-changed-state:%s" % c["op"])
-        # originals left behind by copy() must not move
-        for (h0, m0, o0) in frozen:
-            obs0 = observe(h0, U, probes, real=True)
-            obs0["__hg_meta__"] = hg_meta_of(h0)
-            d = diff_obs({k: o0[k] for k in obs0 if k in o0}, obs0)
-            if d is not None:
-                raise Violation("%s on a copy changed the original: %s" % (desc, d),
-                                key="copy-aliasing")
-    if frozen:
-        ctx.label("has_copy")
-    if n_reject:
-        ctx.label("has_rejection")
-    ctx.label("weighted" if case["weighted"] else "unweighted")
-    ctx.label("labels:" + case["universe"]["kind"])
-    ctx.nontrivial(seen_removal and reinsertion)
-    if seen_removal and inserted_after:
-        ctx.label("insert_after_removal")
-
-
-# --------------------------------------------------------------------------
-# generators
-
-sel = st.integers(0, 30)
-idx = st.integers(0, 7)
-
-
-def edge_spec(modes=("existing", "fresh")):
-    return st.fixed_dictionaries({
-        "mode": st.sampled_from(list(modes)),
-        "ns": st.lists(idx, min_size=1, max_size=5, unique=True),
-        "pick": sel, "perm": sel})
-
-
-def node_spec():
-    return st.fixed_dictionaries({
-        "mode": st.sampled_from(["existing"] * 4 + ["fresh"]), "i": idx, "pick": sel})
-
-
-def weight_for(weighted):
-    if weighted:
-        return st.one_of(st.none(), st.integers(1, 9), st.sampled_from([0.5, 2.5]))
-    # 1/None accepted; anything else is an intended rejection
-    return st.sampled_from([None, None, None, 1, 1, 3])
-
-
-KINDS = (["add_edge"] * 8 + ["add_edges"] * 3 + ["add_node"] * 2 + ["add_nodes"]
-         + ["remove_edge"] * 4 + ["remove_edges"] * 2 + ["remove_node"] * 4 + ["remove_nodes"] * 2
-         + ["set_weight"] * 2 + ["set_node_metadata", "set_edge_metadata", "set_attr_node",
-            "remove_attr_node", "set_attr_edge", "remove_attr_edge", "set_attr_hg"]
-         + ["copy"])
-
-
-@st.composite
-def op_strategy(draw, weighted, kinds=None):
-    kinds = kinds or KINDS
-    # clear() is rare: it wipes the history that makes later steps interesting
-    k = "clear" if draw(st.integers(0, 59)) == 59 else draw(st.sampled_from(kinds))
-    field = st.sampled_from(S.ATTRS)
-    # operations on hyperedges / nodes mostly aim at existing ones (the rest are
-    # intended rejections or fresh insertions)
-    e_exist = edge_spec(["existing"] * 4 + ["fresh"])
-    e_mixed = edge_spec(["existing", "fresh"])
-    op = {"op": k}
-    if k == "add_node":
-        op.update(node=draw(node_spec()), meta=draw(S.opt_metadata()))
-    elif k == "add_nodes":
-        op.update(ns=draw(st.lists(idx, min_size=1, max_size=4, unique=True)),
-                  metas=draw(st.one_of(st.none(), st.lists(S.metadata(), min_size=1, max_size=4))))
-    elif k == "add_edge":
-        op.update(edge=draw(e_mixed), w=draw(weight_for(weighted)), meta=draw(S.opt_metadata()))
-    elif k == "add_edges":
-        ws = (st.one_of(st.none(), st.lists(st.integers(1, 9), min_size=4, max_size=4))
-              if weighted else st.none())
-        op.update(edges=draw(st.lists(e_mixed, min_size=1, max_size=4)), ws=draw(ws),
-                  short_weights=draw(st.integers(0, 9)) == 9,
-                  metas=draw(st.one_of(st.none(), st.lists(S.metadata(), max_size=4))))
-    elif k == "remove_edge":
-        op.update(edge=draw(e_exist))
-    elif k == "remove_edges":
-        op.update(edges=draw(st.lists(e_exist, min_size=1, max_size=3)))
-    elif k == "remove_node":
-        op.update(node=draw(node_spec()), keep=draw(st.booleans()))
-    elif k == "remove_nodes":
-        op.update(nodes=draw(st.lists(node_spec(), min_size=1, max_size=3)),
-                  keep=draw(st.booleans()))
-    elif k == "set_weight":
-        op.update(edge=draw(e_exist),
-                  w=draw(st.integers(1, 9) if weighted else st.sampled_from([1, 1, 1, 4])))
-    elif k == "set_node_metadata":
-        op.update(node=draw(node_spec()), meta=draw(S.metadata()))
-    elif k == "set_edge_metadata":
-        op.update(edge=draw(e_exist), meta=draw(S.metadata()))
-    elif k == "set_attr_node":
-        op.update(node=draw(node_spec()), field=draw(field), value=draw(S.json_values))
-    elif k == "remove_attr_node":
-        op.update(node=draw(node_spec()), field=draw(field), fpick=draw(sel))
-    elif k == "set_attr_edge":
-        op.update(edge=draw(e_exist), field=draw(field), value=draw(S.json_values))
-    elif k == "remove_attr_edge":
-        op.update(edge=draw(e_exist), field=draw(field), fpick=draw(sel))
-    elif k == "set_attr_hg":
-        op.update(field=draw(field), value=draw(S.json_values))
-    return op
-
-
-@st.composite
-def histories(draw, max_steps):
-    weighted = draw(st.booleans())
-    universe = draw(S.universes(min_size=3, max_size=8, kinds=("ints", "strs", "range", "ints")))
-    with_init = draw(st.booleans())
-    init = {"edges": [], "weights": None, "node_meta": None, "edge_meta": None, "hg_meta": None}
-    if with_init:
-        init = {
-            "edges": draw(st.lists(st.lists(idx, min_size=1, max_size=5, unique=True), max_size=5)),
-            "weights": draw(st.one_of(st.none(), st.lists(st.integers(1, 9), min_size=1, max_size=5))),
-            "node_meta": draw(st.one_of(st.none(), st.lists(st.tuples(idx, S.metadata()), max_size=3))),
-            "edge_meta": draw(st.one_of(st.none(), st.lists(S.metadata(), max_size=5))),
-            "hg_meta": draw(st.one_of(st.none(), S.metadata())),
-        }
-        if init["node_meta"] is not None:
-            init["node_meta"] = [list(t) for t in init["node_meta"]]
-    min_steps = draw(st.sampled_from([1, 8, 16]))
-    ops = draw(st.lists(op_strategy(weighted), min_size=min_steps, max_size=max_steps))
-    return {"weighted": weighted, "universe": universe, "init": init, "ops": ops}
+    H.check_history(ADAPTER, case, ctx)
 
 
 def _strategy(tier):
-    return histories(30 if tier == "quick" else 50)
+    return H.histories(30 if tier == "quick" else 50)
 
 
 CLAUSES = [
